@@ -202,7 +202,7 @@ pub fn exec(obj: &Obj, loc: &mut Locals, op: &Value) -> Value {
     // amounts are JSON numbers; the non-finite ones (and -0) travel as strings ("+Inf", "-Inf", "NaN", "-0")
     let v = op.get("v").map(|x| if x.is_string() { crate::pm::fparse(x) } else { x.as_f64().unwrap_or(0.0) }).unwrap_or(0.0);
     let vi = op.get("v").and_then(|x| x.as_i64()).unwrap_or(0);
-    let vs: Vec<f64> = op.get("vs").and_then(|x| x.as_array()).map(|a| a.iter().map(|x| x.as_f64().unwrap()).collect()).unwrap_or_default();
+    let vs: Vec<f64> = op.get("vs").and_then(|x| x.as_array()).map(|a| a.iter().map(|x| if x.is_string() { crate::pm::fparse(x) } else { x.as_f64().unwrap() }).collect()).unwrap_or_default();
     let t = xf();
     match obj {
         Obj::Counter(c) => match k {
